@@ -8,3 +8,7 @@ open ZCV.Props.C07
 #print axioms C07_schemaless_no_internal
 #print axioms C07_schemaless_plain_no_internal
 #print axioms C07_parser_no_internal
+#print axioms ZCV.Props.C07.C07_validator_exit
+#print axioms ZCV.Props.C07.C07_validator_status_zero_iff
+#print axioms ZCV.Props.C07.C07_validator_escape
+#print axioms ZCV.Props.C07.C07_validator_on_loads
